@@ -206,6 +206,16 @@ Proof. reflexivity. Qed.
 (* ================================================================== *)
 (* (c) MCTS.populate = the expansion half of `simulate`                *)
 (* ================================================================== *)
+Lemma moves_of_size_eq s : moves_of_size s = table s.
+Proof.
+  unfold moves_of_size. destruct ((0 <=? s) && (s <=? 6)) eqn:E; [|reflexivity].
+  apply andb_true_iff in E. destruct E as (E1 & E2). apply Z.leb_le in E1. apply Z.leb_le in E2.
+  assert (H : s = 0 \/ s = 1 \/ s = 2 \/ s = 3 \/ s = 4 \/ s = 5 \/ s = 6) by lia.
+  unfold MOVES_BY_SIZE. destruct H as [H|[H|[H|[H|[H|[H|H]]]]]]; subst s; reflexivity.
+Qed.
+Lemma py_decode_move_eq s i : py_decode_move s i = match decode_move s i with Some m => Ok m | None => Crash IndexError end.
+Proof. unfold py_decode_move, decode_move. rewrite moves_of_size_eq. reflexivity. Qed.
+
 Lemma ft_slice_table raw s : ft_slice_to raw (n_moves_for_size s) = firstn (length (table s)) raw.
 Proof.
   unfold ft_slice_to, n_moves_for_size. rewrite py_slice_prefix by (unfold zlen; lia).
@@ -281,7 +291,7 @@ Section Populate.
       assert (Ht' : table (size p) = (pre ++ [m]) ++ tl') by (rewrite <- app_assoc; exact Ht).
       assert (Hk' : k + 1 = Z.of_nat (length (pre ++ [m]))) by (rewrite app_length; simpl; lia).
       assert (Hdec : py_decode_move (size (pn_position node)) k = Ok m).
-      { rewrite Hp. unfold py_decode_move, decode_move. destruct (k <? 0) eqn:E; [lia|].
+      { rewrite Hp, py_decode_move_eq. unfold decode_move. destruct (k <? 0) eqn:E; [lia|].
         rewrite Ht, Hk, Nat2Z.id, nth_error_app2 by lia. rewrite Nat.sub_diag. reflexivity. }
       cbn [ft_ge map nz_from combine]. fold (ft_ge pt cutoff).
       unfold acc_of. cbn [flat_map acc_ids fst snd]. fold (acc_of cutoff p (combine tl' pt)).
